@@ -94,6 +94,9 @@ def handwritten(tier_quick: bool):
         # the key of a kernel that asks for the history is excluded from tracking (the history holds tracked keys only)
         dict(ops=[("all",)], init_cfgs=[I, C(1, 4, 2), C(2, 2), C(4, 4, 2)], K=2, needs_hist=(1,), chains=2, via_builder=True,
              excluded=("p1",)),
+        # every key excluded: nothing would be tracked (the builder refuses; it must not silently track everything)
+        dict(ops=[("all",)], init_cfgs=[I, C(1, 2), C(4, 4, 2)], K=2, needs_hist=(), chains=2, via_builder=True,
+             excluded=("p1", "p2")),
         # every kernel key excluded, only an additional key tracked
         dict(ops=[("all",)], init_cfgs=[I, C(1, 2), C(4, 4, 2)], K=2, needs_hist=(), chains=2, via_builder=True,
              included=("const",), excluded=("p1", "p2")),
